@@ -60,11 +60,31 @@ def _fresh(s: ASchema, base: str) -> str:
     return n
 
 
+def _ghost(draw, s: ASchema, schemas):
+    """a (schema, name) no table has: a fresh name, or the name / alias of an existing table under a schema where
+    no such table lives (the bare name alone must not decide the lookup)"""
+    keys = {t.key for t in s.tables}
+    aliases = {t.alias for t in s.tables if t.alias}
+    how = draw(st.sampled_from(['fresh', 'fresh', 'name_elsewhere', 'name_elsewhere', 'alias_elsewhere']))
+    if how == 'name_elsewhere':
+        t = draw(st.sampled_from(s.tables))
+        cands = [(sc, t.name) for sc in list(schemas) + ['nosuch'] if (sc, t.name) not in keys and t.name not in aliases]
+        if cands:
+            return draw(st.sampled_from(cands)), how
+    if how == 'alias_elsewhere' and aliases:
+        a = draw(st.sampled_from(sorted(aliases)))
+        cands = [(sc, a) for sc in list(schemas) + ['nosuch'] if sc != 'public' and (sc, a) not in keys]
+        if cands:
+            return draw(st.sampled_from(cands)), how
+    return (draw(st.sampled_from(list(schemas))), _fresh(s, 'ghost')), 'fresh'
+
+
 @st.composite
 def faulty(draw, feats, sizes):
     base = draw(gen.schemas(feats, sizes, min_tables=2))
     s = copy.deepcopy(base)
     kind = draw(st.sampled_from(KINDS))
+    ghost_how = None
     t = draw(st.sampled_from(s.tables))
     other = draw(st.sampled_from([x for x in s.tables if x is not t]))
     if kind in ('dup_table', 'dup_table_same'):
@@ -152,7 +172,7 @@ def faulty(draw, feats, sizes):
         s.tables.append(d)
         _insert_layout(draw, s, 'table', len(s.tables) - 1)
     elif kind == 'ref_missing_table':
-        ghost = ('public' if draw(st.booleans()) else t.schema, _fresh(s, 'ghost'))
+        ghost, ghost_how = _ghost(draw, s, ['public', t.schema])
         r = ARef(draw(st.sampled_from(['>', '<', '-', '<>'])), t.key, [t.columns[0].name], ghost, ['id'])
         if draw(st.booleans()):
             r.t1, r.c1, r.t2, r.c2 = r.t2, r.c2, r.t1, r.c1
@@ -165,7 +185,7 @@ def faulty(draw, feats, sizes):
         s.refs.append(r)
         _insert_layout(draw, s, 'ref', len(s.refs) - 1)
     elif kind == 'inline_missing_table':
-        ghost = ('public', _fresh(s, 'ghost'))
+        ghost, ghost_how = _ghost(draw, s, ['public', other.schema])
         c = draw(st.sampled_from(t.columns))
         c.refs.append(ARef(draw(st.sampled_from(['>', '<', '-'])), t.key, [c.name], ghost, ['id'], inline=True))
     elif kind == 'inline_missing_column':
@@ -177,12 +197,13 @@ def faulty(draw, feats, sizes):
             subj.insert(draw(st.integers(0, 1)), ('col', t.columns[0].name))
         t.indexes.insert(draw(st.integers(0, len(t.indexes))), AIndex(subj, unique=draw(st.booleans())))
     elif kind == 'group_missing_table':
-        items = [other.key, ('public', _fresh(s, 'ghost'))]
+        ghost, ghost_how = _ghost(draw, s, ['public', t.schema])
+        items = [other.key, ghost]
         if draw(st.booleans()):
             items.reverse()
         s.groups.append(AGroup(_fresh(s, 'grp') + str(len(s.groups)), items))
         _insert_layout(draw, s, 'group', len(s.groups) - 1)
-    return base, s, kind, draw(gen.styles())
+    return base, s, kind, draw(gen.styles()), ghost_how
 
 
 def outcome(text, props):
@@ -207,18 +228,19 @@ def judge(kind, text, props, case):
 
 
 def evaluate(c, ctx: Ctx = None):
-    base, s, kind, style = c
+    base, s, kind, style = c[:4]
+    ghost_how = c[4] if len(c) > 4 else None
     btext, _ = write(base, style)
     if outcome(btext, base.allow_properties) is not None:
         if ctx is not None:
             ctx.extra['control_rejected'] = ctx.extra.get('control_rejected', 0) + 1
         return []
     text, _ = write(s, style)
-    case = dict(kind=kind, text=text, allow_properties=s.allow_properties)
+    case = dict(kind=kind, text=text, allow_properties=s.allow_properties, ghost=ghost_how)
     viols = judge(kind, text, s.allow_properties, case)
     if ctx is not None:
         sample = dict(kind=kind, text=text) if len(text) < 500 and len(ctx.samples) < ctx.MAX_SAMPLES else None
-        ctx.record(thash(text), True, [f'kind:{kind}'], sample)
+        ctx.record(thash(text), True, [f'kind:{kind}'] + ([f'ghost:{ghost_how}'] if ghost_how else []), sample)
     return viols
 
 
